@@ -1103,7 +1103,16 @@ func runFrameCase(r *Rng, em *Emitter, label string, tags string) {
 	// the real call tracer's result against the call-tracer machine run on the same callbacks (a tracer instance serves one
 	// transaction: cases with a second top-level invocation on the same EVM are left out)
 	if rounds == 1 {
-		em.Op("-", fmt.Sprintf("EC %s %s %s %s", b01(ctFlat), b01(ctOnlyTop), b01(ctIncl), b01(ctParity)), "ok")
+		// the flat tracer filters calls to the precompiles active under the block's rules
+		var pcs []string
+		for _, a := range vm.ActivePrecompiles(env.rules) {
+			pcs = append(pcs, hexAddr(a))
+		}
+		pl := "."
+		if len(pcs) > 0 {
+			pl = strings.Join(pcs, ",")
+		}
+		em.Op("-", fmt.Sprintf("EC %s %s %s %s %s", b01(ctFlat), b01(ctOnlyTop), b01(ctIncl), b01(ctParity), pl), "ok")
 		for _, ln := range tee.lines {
 			em.Op("-", ln, "ok")
 		}
